@@ -88,6 +88,7 @@ class Ctx:
         self.outcomes = set()
         self.samples = []
         self.violations = {}      # kind -> smallest violation
+        self.alternatives = {}    # kind -> a few other cases of the kind
         self.violation_count = 0
         self.extra = {}           # additional coverage keys
         self.bounds = {}          # per-bound breakdown
@@ -166,6 +167,20 @@ class Ctx:
         if cur is None or (size, canon(v['case'])) < \
                 (cur['size'], canon(cur['case'])):
             self.violations[kind] = v
+            if cur is not None:
+                v = cur
+            else:
+                return
+        # other cases of the kind (a few small and the largest ones) are kept
+        # as fall-backs: if the smallest does not reproduce in a fresh process
+        # (it needed state left by an earlier case) a larger, self-contained
+        # one may
+        alt = self.alternatives.setdefault(kind, [])
+        if all(canon(a['case']) != canon(v['case']) for a in alt):
+            alt.append(v)
+            alt.sort(key=lambda a: (a['size'], canon(a['case'])))
+            if len(alt) > 6:
+                del alt[3:-3]
 
     def out_of_time(self):
         return self.deadline is not None and time.time() > self.deadline
@@ -176,23 +191,28 @@ class Ctx:
         entries = known.load(self.prop)
         reported = []
         known_hits = []
+        unconfirmed = []
         self.close()
         for kind in sorted(self.violations):
             v = self.violations[kind]
             v['property'] = self.prop
             entry = known.match(v, entries, module)
             conf = confirm(module, v)
-            if conf == 'diverged':
-                print(f'HARNESS-ERROR property={self.prop} kind={kind}: '
-                      f'replay is not deterministic', flush=True)
-                self.write_evidence(error='nondeterministic replay')
-                return 2
-            if conf == 'gone':
-                print(f'HARNESS-ERROR property={self.prop} kind={kind}: '
-                      f'violation does not reproduce in a fresh worker',
-                      flush=True)
-                self.write_evidence(error='unreproducible violation')
-                return 2
+            if conf in ('diverged', 'gone'):
+                for alt in self.alternatives.get(kind, []):
+                    alt['property'] = self.prop
+                    if confirm(module, alt) == 'ok':
+                        v, conf = alt, 'ok'
+                        entry = known.match(v, entries, module)
+                        break
+            if conf in ('diverged', 'gone'):
+                # never reported as a VIOLATION; the run ends with exit 2
+                # unless another kind of this run is confirmed
+                unconfirmed.append((kind, 'replay is not deterministic'
+                                    if conf == 'diverged' else
+                                    'violation does not reproduce in a '
+                                    'fresh worker'))
+                continue
             path = write_replay(self.prop, v)
             if entry is not None:
                 known_hits.append((entry, v, path))
@@ -212,6 +232,17 @@ class Ctx:
                 print(f"NOTE stale-finding property={self.prop} "
                       f"{entry['id']} did not reproduce in this run",
                       flush=True)
+        if unconfirmed and not reported:
+            for kind, why in unconfirmed:
+                print(f'HARNESS-ERROR property={self.prop} kind={kind}: {why}',
+                      flush=True)
+            self.write_evidence(error='unconfirmed violation: ' +
+                                unconfirmed[0][1])
+            return 2
+        for kind, why in unconfirmed:
+            print(f'NOTE unconfirmed property={self.prop} kind={kind}: {why} '
+                  f'(not reported; other kinds of this run are confirmed)',
+                  flush=True)
         for v, path in reported:
             print(f'VIOLATION property={self.prop} replay={path}', flush=True)
             print(f"  kind={v['kind']}\n  case={canon(v['case'])[:600]}\n"
